@@ -11,6 +11,7 @@ import (
 	"sort"
 	"strings"
 	"sync"
+	"syscall"
 	"time"
 
 	"verif/harness/daemon"
@@ -151,7 +152,7 @@ var workloads = []workload{
 			time.Sleep(50 * time.Millisecond)
 		}
 	}},
-	{name: "cancel", script: longScript, output: "", run: func(d *daemon.Daemon, k *Know, log func(string, string)) {
+	{name: "cancel", script: longScript, output: longOutput, run: func(d *daemon.Daemon, k *Know, log func(string, string)) {
 		if !submit(d, k, longScript, log) {
 			return
 		}
@@ -301,7 +302,7 @@ func experiment(bin, base string, cp crashPoint, idx int) *outcome {
 	runnerKilled := false
 	switch cp.Role {
 	case "daemon":
-		o.Reached = !d.Alive()
+		o.Reached = d.WaitExit(3 * time.Second) // the SIGKILL may be a few ms ahead of our wait4
 	case "runner":
 		// the runner is the process that died if its last cp event is the selected one and it is gone
 		if spawned && !daemon.PidAlive(rpid) {
@@ -420,6 +421,25 @@ func experiment(bin, base string, cp crashPoint, idx int) *outcome {
 	}
 	ent, listed := lr.JSON[k.ID].(map[string]any)
 	suffix := "@" + cp.Name
+	// recovery runs concurrently with the control service (the scan is repeated per registered work type and the
+	// unit is briefly dropped from the index in between): Durable is evaluated once recovery has completed, so
+	// give it time; only a unit that stays unlisted while the node answers is a definite wrong value
+	for t0 := time.Now(); !listed && time.Since(t0) < 15*time.Second; {
+		time.Sleep(200 * time.Millisecond)
+		if lr2, err := simpleCmd(d, "work list", 20*time.Second); err == nil && lr2.JSON != nil {
+			lr = lr2
+			ent, listed = lr.JSON[k.ID].(map[string]any)
+		}
+	}
+	if listed && daemon.Str(ent, "WorkType") == "" {
+		// an unknown-type placeholder is replaced once the work type is registered: look again shortly
+		time.Sleep(500 * time.Millisecond)
+		if lr2, err := simpleCmd(d, "work list", 20*time.Second); err == nil && lr2.JSON != nil {
+			if e2, ok := lr2.JSON[k.ID].(map[string]any); ok {
+				ent = e2
+			}
+		}
+	}
 	if !listed {
 		viol("C04:acked-unit-not-listed"+suffix, fmt.Sprintf("unit %s had been acknowledged but is not listed after restart (%s)", k.ID, o.Class))
 
@@ -495,6 +515,9 @@ func experiment(bin, base string, cp crashPoint, idx int) *outcome {
 		}
 		if final == 2 {
 			checkResults(d, k, viol, &o.Inconcl, suffix)
+		} else if final == 3 && after["final_detail"] == "Pending at restart" {
+			viol("C04:live-runner-marked-failed", fmt.Sprintf("unit %s had a live runner (still pending) when the daemon died at %s; the restarted daemon marked it Failed \"Pending at restart\" and stopped following it",
+				k.ID, cp.Name))
 		} else {
 			viol("C04:running-unit-failed"+suffix, fmt.Sprintf("unit %s was running with a live supervisor when the daemon died; after restart it ends in State %d (%v)",
 				k.ID, final, after["final_detail"]))
@@ -646,6 +669,101 @@ func diskOnly(bin, base string) *outcome {
 		} else {
 			o.Inconcl = append(o.Inconcl, "work list: "+err.Error())
 		}
+	}
+
+	return o
+}
+
+// ---------------------------------------------------------------- TLC lead: live runner marked "Pending at restart"
+// Schedule found by TLC on WorkUnit.tla (2 crashes): the daemon dies right after spawning the runner; it is restarted
+// before the runner has written its first "Running" record; Restart() sees Pending and marks the unit Failed; the
+// runner then carries on. The runner's slow start is reproduced with SIGSTOP/SIGCONT (the gate of this replay).
+func liveRunner(bin, base string) *outcome {
+	cp := crashPoint{Workload: "long", Role: "daemon", Name: "start_after_spawn", K: 1, Second: "runner-held-until-recovery-done"}
+	o := &outcome{Point: cp, Know: Know{ToldState: -1, ToldSize: -1}, Class: "runner-alive"}
+	dir := filepath.Join(base, "x_liverunner")
+	o.Dir = dir
+	_ = os.RemoveAll(dir)
+	d := daemon.New(bin, dir, "n1")
+	defer d.Cleanup()
+	log := func(what, info string) { o.Steps = append(o.Steps, step{what, info}) }
+	if err := d.Start(60*time.Second, "VERIF_CRASH_AT=start_after_spawn#1", "VERIF_CRASH_WHO=daemon"); err != nil {
+		o.Inconcl = append(o.Inconcl, "start: "+err.Error())
+
+		return o
+	}
+	k := &o.Know
+	findWorkload("long").run(d, k, log)
+	k.Expected = longOutput
+	if !d.WaitExit(5*time.Second) || !k.Acked {
+		o.Inconcl = append(o.Inconcl, "the daemon did not die at start_after_spawn")
+
+		return o
+	}
+	spawned, rpid := runnerPidAlive(traceEvents(d.Trace))
+	if !spawned || !daemon.PidAlive(rpid) || !strings.Contains(daemon.PidCmdline(rpid), "--command-runner") {
+		o.Inconcl = append(o.Inconcl, "no live runner after the crash")
+
+		return o
+	}
+	_ = syscall.Kill(rpid, syscall.SIGSTOP)
+	defer syscall.Kill(rpid, syscall.SIGCONT)
+	o.Reached = true
+	if disk := readStatusFile(d, k.ID); disk == nil || daemon.Num(disk, "State") != 0 {
+		o.Inconcl = append(o.Inconcl, "the runner had already left the pending state")
+		o.Reached = false
+
+		return o
+	}
+	if err := d.Start(60 * time.Second); err != nil {
+		o.Inconcl = append(o.Inconcl, "restart: "+err.Error())
+
+		return o
+	}
+	var first map[string]any
+	for t0 := time.Now(); time.Since(t0) < 20*time.Second; time.Sleep(200 * time.Millisecond) {
+		if m, _, err := statusOf(d, k.ID, 20*time.Second); err == nil && m != nil && daemon.Str(m, "WorkType") == "sh" {
+			first = m
+
+			break
+		}
+	}
+	if first == nil {
+		o.Inconcl = append(o.Inconcl, "unit not reported after restart")
+
+		return o
+	}
+	log("after-restart", fmt.Sprintf("state=%d detail=%q", daemon.Num(first, "State"), daemon.Str(first, "Detail")))
+	_ = syscall.Kill(rpid, syscall.SIGCONT)
+	// the supervisor is alive: the unit has to be followed to completion
+	deadline := time.Now().Add(60 * time.Second)
+	var disk map[string]any
+	for time.Now().Before(deadline) {
+		disk = readStatusFile(d, k.ID)
+		if disk != nil && daemon.Num(disk, "State") == 2 && !daemon.PidAlive(rpid) {
+			break
+		}
+		time.Sleep(200 * time.Millisecond)
+	}
+	if disk == nil || daemon.Num(disk, "State") != 2 {
+		o.Inconcl = append(o.Inconcl, "the runner did not finish within 60 s")
+
+		return o
+	}
+	time.Sleep(4 * time.Second) // several periods of the daemon's 1 s status poll
+	m, _, err := statusOf(d, k.ID, 20*time.Second)
+	if err != nil || m == nil {
+		o.Inconcl = append(o.Inconcl, "status after completion failed")
+
+		return o
+	}
+	o.After = map[string]any{"reported": m, "on_disk": disk, "first_report_after_restart": first}
+	if daemon.Num(m, "State") != 2 {
+		o.Violations = append(o.Violations, Violation{Sig: "C04:live-runner-marked-failed",
+			What: fmt.Sprintf("unit %s: the daemon died right after spawning the runner and was restarted before the runner's first Running record; the restarted daemon reports State %d Detail %q for good, "+
+				"although the (live) runner completed the command: on disk State %d Detail %q StdoutSize %d", k.ID, daemon.Num(m, "State"), daemon.Str(m, "Detail"),
+				daemon.Num(disk, "State"), daemon.Str(disk, "Detail"), daemon.Num(disk, "StdoutSize")),
+			Replay: map[string]any{"point": cp, "dir": dir}})
 	}
 
 	return o
@@ -807,7 +925,12 @@ func c04Main(args []string) {
 	}
 	close(jobs)
 	wg.Wait()
-	outcomes = append(outcomes, diskOnly(*bin, *base))
+	if *only == "" || strings.HasPrefix(*only, "disk-only") {
+		outcomes = append(outcomes, diskOnly(*bin, *base))
+	}
+	if *only == "" || strings.Contains(*only, "runner-held") {
+		outcomes = append(outcomes, liveRunner(*bin, *base))
+	}
 	sort.Slice(outcomes, func(a, b int) bool { return outcomes[a].Dir < outcomes[b].Dir })
 	distinct := map[string]bool{}
 	classes := map[string]int{}
